@@ -1,5 +1,9 @@
 //! Sim-B: the deployed pipeline (compiler -> renderer -> engine) under a simulator-owned random
 //! source (DESIGN 2.2). Decides C01, C02, C03, C04, C09.
+mod budget;
+mod c01;
+mod c03;
+mod c04;
 mod c09;
 mod engine;
 mod gen;
@@ -19,6 +23,9 @@ use std::io::Write;
 fn check_one(prop: &str, sc: &Scenario, ex: &mut Exec) -> (Verdict, Option<String>) {
     match prop {
         "C09" => c09::check(sc, ex),
+        "C01" => c01::check(sc, ex),
+        "C03" => c03::check(sc, ex),
+        "C04" => c04::check(sc, ex),
         other => (Verdict::Skip(format!("unknown property {}", other)), None),
     }
 }
